@@ -322,7 +322,7 @@ def json_semantic(chk, program):
     def hook2(it, call, env):
         name = ast.unparse(call.func)
         if name == 'orjson.loads':
-            return A.ADict({'PGN': A.AInt(7), 'id': A.AStr([('lit', 'x')]), 'fields': A.AList([f1, f2])})
+            return A.ADict({'PGN': A.AInt(7), 'id': A.AStr([('lit', 'x')]), 'fields': A.AList([f1, f2]), 'destination': A.AInt(0), 'source': A.AInt(0), 'priority': A.AInt(0)})
         if name in ('NMEA2000Message', 'NMEA2000Field', 'cls'):
             srcs = [it.expr(k.value, env) for k in call.keywords if k.arg is None]
             o = A.AObj()
@@ -345,6 +345,12 @@ def json_semantic(chk, program):
         and all(isinstance(x, A.AObj) and x.attrs.get('__class__') == 'NMEA2000Field' for x in flds.items) and flds.items[0].attrs.get('__from__') is f1 and flds.items[1].attrs.get('__from__') is f2
     chk.check(okb, 'JSON-BACK', 'from_json', file=MSG, line=fj.lineno, func='from_json', expected='NMEA2000Message(**data) whose fields are [NMEA2000Field(**f) for f in data["fields"]], in order',
               found='ok' if okb else {'result': repr(m2)[:40], 'fields': repr(flds)[:80]})
+    if okb:
+        # addressing written as 0 (a device at address 0, priority 0) comes back as 0: a falsy value is a value
+        zeros = {k: m2.attrs.get(k) for k in ('destination', 'source', 'priority')}
+        okz = all(isinstance(v, A.AInt) and v.v == 0 for v in zeros.values())
+        chk.check(okz, 'JSON-BACK', 'from_json::zero-addressing-kept', file=MSG, line=fj.lineno, func='from_json', expected='destination / source / priority 0 in the JSON text stay 0',
+                  found='ok' if okz else {k: repr(v) for k, v in zeros.items()}, detail='' if okz else 'a message addressed to (or sent by) the device at address 0 comes back with another address')
     return True
 
 def json_rules(chk, program):
